@@ -59,3 +59,26 @@ for f in CB:
 UNIT = Unit('regex_decode', PRELUDE, CB + fns, consts=PC.UNINIT)
 UNIT.facts = SX.CB_FACTS + [r'stdex::cbitset<meta::distinct_values_count<char>> data = \{\};', r'char start;\s*char end;\s*\};']
 apply_spec(UNIT.fns, os.path.join(HERE, '..', 'contracts', 'regex_decode.spec'))
+
+
+# ---- native replay twins (public API): counterexample inputs -> the real C++ function -> same postcondition
+from vx import native as _N
+
+
+def _twin_hex(o):
+    v = _N.trace_vals(o, 'h_regex__hex_digits_to_char') or _N.trace_vals(o, 'h_hex__dd')
+    a = _N.to_int(v.get('a', v.get('d')), 70); b = _N.to_int(v.get('b', v.get('d')), 70)
+    return _N.TWIN_HEAD + """
+static int hv(int c) { return c <= 57 ? c - 48 : (c <= 70 ? c - 65 + 10 : c - 97 + 10); }
+int main() {
+    char d1 = (char)%d, d2 = (char)%d;
+    unsigned char r = (unsigned char)regex::hex_digits_to_char(d1, d2);
+    int want = hv(d1) * 16 + hv(d2);
+    std::printf("hex_digits_to_char('%%c','%%c') = %%u, documented meaning %%d\\n", d1, d2, (unsigned)r, want);
+    return r == (unsigned char)want ? 0 : 1;
+}""" % (a, b)
+
+
+for _f in UNIT.fns:
+    if _f.name in ('regex__hex_digits_to_char', 'hex__dd'):
+        _f.twin = _twin_hex
